@@ -118,6 +118,8 @@ impl<'a> StmtIterator<'a> {
         ctx: &mut EvalContext,
     ) -> Result<Option<DataEntries>, ExprError> {
         loop {
+            #[cfg(feature = "verif-hooks")]
+            crate::verif_hooks::burn_fuel();
             match &mut self.inner_state {
                 StmtIteratorState::Iterate => {
                     let Some(next) = self.stmt_iter.next() else {
